@@ -475,7 +475,11 @@ def inject_all(mod, rng, limit=8):
         except Exception:
             continue
         if pr:
-            out.append((fam + ":" + pr[0][0], m.text()))
+            try:
+                txt = m.text()
+            except ValueError:
+                continue        # e.g. a DEFAULT that named the enumeration value the mutation has just removed
+            out.append((fam + ":" + pr[0][0], txt))
         if len(out) >= limit:
             break
     return out
